@@ -464,7 +464,7 @@ def programs(draw, cfg=None):
 
 def stats(program):
     """Structural statistics used for non-triviality rules and distribution labels."""
-    s = {"comps": 0, "slots": 0, "fills": 0, "implicit": 0, "slot_in_fill": 0, "slot_in_default": 0, "loops": 0, "only": 0, "provide": 0, "dynfill": 0, "condfill": 0, "elems": 0}
+    s = {"comps": 0, "slots": 0, "fills": 0, "implicit": 0, "slot_in_fill": 0, "slot_in_default": 0, "loops": 0, "only": 0, "provide": 0, "dynfill": 0, "condfill": 0, "elems": 0, "dynslot": 0}
 
     def rec(nodes, in_fill, in_default):
         for n in nodes:
@@ -486,6 +486,8 @@ def stats(program):
                 rec(n["c"], True, in_default)
             elif t == "slot":
                 s["slots"] += 1
+                if n.get("nvar"):
+                    s["dynslot"] += 1
                 if in_fill:
                     s["slot_in_fill"] += 1
                 if in_default:
